@@ -336,4 +336,113 @@ theorem reneging_start_iff_within_patience (cfg : Cfg) (s : MSt) (t id : Nat) (w
 example : expired ⟨1, 0, some 500⟩ 1000 = true ∧ expired ⟨1, 0, some 1000⟩ 1000 = false ∧ expired ⟨1, 0, none⟩ 1000 = false := by
   decide
 
+/-! ### the item-state partition of the reneging model (both `reneged_target` settings) -/
+
+theorem any_of_find {l : List WItem} {id : Nat} {w : WItem} (h : l.find? (·.id == id) = some w) :
+    l.any (·.id == id) = true :=
+  List.any_eq_true.mpr ⟨w, List.mem_of_find?_eq_some h, List.find?_some (p := fun x : WItem => x.id == id) h⟩
+
+/-- every accepted item is waiting, on its way to the worker, counted as served or counted as reneged —
+exactly one of them; an item counted as served is in service or has completed -/
+def RInv (s : MSt) : Prop :=
+  s.accepted = s.queue.length + s.transit.length + s.served + s.reneged ∧
+  s.served = s.active.length + s.completed
+
+theorem stepReneging_inv (cfg : Cfg) (s : MSt) (t : Nat) (a : Act) (h : RInv s) :
+    RInv (stepReneging cfg s t a).1 := by
+  unfold RInv at *
+  obtain ⟨h1, h2⟩ := h
+  cases a with
+  | offer id p =>
+    simp only [stepReneging]
+    split <;> (constructor <;> simp <;> omega)
+  | deq =>
+    simp only [stepReneging]
+    split
+    · exact ⟨h1, h2⟩
+    · rename_i w rest hq
+      constructor <;> simp [hq] at * <;> omega
+  | work id =>
+    simp only [stepReneging]
+    split
+    · exact ⟨h1, h2⟩
+    · rename_i w hf
+      have hl := eraseP_len (any_of_find hf)
+      split <;> (constructor <;> simp <;> omega)
+  | fin id =>
+    by_cases hc : s.active.contains id = true
+    · have hl := erase_len hc
+      simp only [stepReneging, hc]
+      constructor <;> simp <;> omega
+    · simp only [stepReneging, hc]
+      exact ⟨h1, h2⟩
+  | done id =>
+    simp only [stepReneging]
+    unfold sinkStep
+    split <;> exact ⟨h1, h2⟩
+  | rdone id =>
+    simp only [stepReneging]
+    split <;> exact ⟨h1, h2⟩
+  | _ => simpa [stepReneging] using ⟨h1, h2⟩
+
+/-- **Item-state partition, RenegingQueuedResource model (reneged_target set or None).** Along every
+schedule `accepted = waiting + dequeued + served + reneged` and `served = in service + completed`: a dequeued
+item is counted as served or as reneged, never as both, and a reneged item is never in service. -/
+theorem reneging_exactly_one_state (cfg : Cfg) (hc : cfg.comp = .reneging) (acts : List (Nat × Act)) :
+    RInv (run cfg (init cfg) acts) := by
+  apply run_inv RInv
+  · intro s t a h; simp only [step, hc]; exact stepReneging_inv cfg s t a h
+  · simp [RInv, init]
+
+/-- patience 1 s, single slot: item 1 has waited 4 s when it is dequeued; it is counted as reneged, not served,
+with and without a reneged target -/
+example :
+    let acts : List (Nat × Act) := [(0, .offer 0 (some 1000)), (0, .offer 1 (some 1000)), (0, .deq), (0, .work 0),
+      (4000, .fin 0), (4000, .deq), (4000, .work 1)]
+    let s := run { comp := .reneging, rtarget := false } (init {}) acts
+    let s' := run { comp := .reneging, rtarget := true } (init {}) acts
+    (s.served, s.reneged, s.active, s.rout) = (1, 1, [], []) ∧ (s'.served, s'.reneged, s'.active, s'.rout) = (1, 1, [], [1]) := by
+  decide
+
+theorem stepReneging_rout (cfg : Cfg) (hr : cfg.rtarget = false) (s : MSt) (t : Nat) (a : Act) (h : s.rout = []) :
+    (stepReneging cfg s t a).1.rout = [] := by
+  cases a with
+  | offer id p => simp only [stepReneging]; split <;> simpa using h
+  | deq => simp only [stepReneging]; split <;> simpa using h
+  | work id =>
+    simp only [stepReneging, hr]
+    split
+    · exact h
+    · split <;> simpa using h
+  | fin id => simp only [stepReneging]; split <;> simpa using h
+  | done id => simp only [stepReneging]; unfold sinkStep; split <;> simpa using h
+  | rdone id => simp only [stepReneging]; split <;> simp [h]
+  | _ => simpa [stepReneging] using h
+
+/-- **`reneged_target = None`: a reneged item is discarded.** Along every schedule nothing is ever on its way
+to a reneged-target sink (together with `reneging_exactly_one_state`: it is counted in `reneged` and gone). -/
+theorem reneging_no_target_discards (cfg : Cfg) (hc : cfg.comp = .reneging) (hr : cfg.rtarget = false)
+    (acts : List (Nat × Act)) : (run cfg (init cfg) acts).rout = [] := by
+  apply run_inv (fun s => s.rout = [])
+  · intro s t a h; simp only [step, hc]; exact stepReneging_rout cfg hr s t a h
+  · simp [init]
+
+/-- **`downstream = None` (PooledCycleResource): a completed item is counted and leaves.** -/
+theorem pooled_no_downstream_forwards_nothing (cfg : Cfg) (hc : cfg.comp = .pooled) (hs : cfg.sink = false)
+    (acts : List (Nat × Act)) : (run cfg (init cfg) acts).out = [] := by
+  apply run_inv (fun s => s.out = [])
+  · intro s t a h
+    simp only [step, hc]
+    cases a with
+    | offer id p => simp only [stepPooled]; repeat' split
+                    all_goals simpa using h
+    | fin id => simp only [stepPooled, hs]; repeat' split
+                all_goals first | (simpa using h) | simp_all
+    | done id => simp only [stepPooled]; unfold sinkStep; split <;> simp [h]
+    | _ => simpa [stepPooled] using h
+  · simp [init]
+
+example : (run { comp := .pooled, limit := 1, sink := false } (init {}) [(0, .offer 0 none), (4, .fin 0)]).completed = 1 := by decide
+
+
 end HappyModel.C08.Indus
